@@ -120,6 +120,8 @@ func c07VisBatch(nm c07Names, idx []int, cases []c07Case) string {
 			stmt = fmt.Sprintf("%s%s = \"W%d\"; $r = \"w\";", pre, target, i)
 		case "call":
 			stmt = pre + "$r = " + target + "();"
+		case "unset":
+			stmt = fmt.Sprintf("%sunset(%s); $r = \"u\";", pre, target)
 		}
 		holder := map[string]string{"decl": nm.D, "closure": nm.D, "sub": nm.S, "grand": nm.G, "sibling": nm.X, "shared-trait": nm.X}[sc.Site]
 		objNew := "new " + cls + "()"
@@ -321,6 +323,8 @@ func c07ParseVis(out string, i int, k c07Case) c07Obs {
 			o.wrong = o.detail != fmt.Sprintf("v%d", i)
 		case "write":
 			o.wrong = peek != fmt.Sprintf("W%d", i)
+		case "unset":
+			o.wrong = peek == fmt.Sprintf("v%d", i) // an allowed unset must remove (or null) the value
 		case "call":
 			o.wrong = o.detail != fmt.Sprintf("r%d", i) || !hit
 		}
